@@ -31,8 +31,10 @@ def mkl(sc):
 def kwargs_of(sc, measure=None):
     kw = {}
     k = sc.get('kw', {})
-    if k.get('mrts'):
-        kw['MRTS'] = float(k['mrts']) if not isinstance(k['mrts'], str) else k['mrts']
+    if k.get('mrts') == 'auto' or k.get('mrts') == -1:
+        kw['MRTS'] = 'auto'
+    elif k.get('mrts'):
+        kw['MRTS'] = float(k['mrts'])
     if k.get('ri') and measure in (None, 'spike'):
         kw['RI'] = True
     return kw
@@ -494,7 +496,13 @@ def o_C08(sc):
 def o_C13(sc):
     """sc['raw'] = [(spikes, ts, te)…] disordered; sc['trains'] = the same reconciled by definition"""
     raw = [SpikeTrain(np.array([float(v) for v in s]), [float(a), float(b)], is_sorted=True) for s, a, b in sc['raw']]
+    snap = [(np.array(t.spikes, dtype=float).copy(), t.t_start, t.t_end) for t in raw]
+    def unchanged():
+        return all(np.array_equal(np.asarray(t.spikes, dtype=float), s0) and t.t_start == a0 and t.t_end == b0
+                   for t, (s0, a0, b0) in zip(raw, snap))
     R = quiet(spk.spikes.reconcile_spike_trains, raw)
+    if not unchanged():
+        return 'C13 reconcile_spike_trains modified the trains passed to it'
     tS = min(a for _, a, _ in sc['raw']); tE = max(b for _, _, b in sc['raw'])
     eps = Fr(1, 10 ** 6)
     for r, (s, _, _) in zip(R, sc['raw']):
@@ -506,6 +514,9 @@ def o_C13(sc):
         if list(r.spikes) != list(r2.spikes) or r.t_start != r2.t_start or r.t_end != r2.t_end:
             return 'C13 reconcile is not idempotent'
     mt = mt_of(sc)
+    quiet(spk.filter_by_spike_sync, raw, 0.5)
+    if not unchanged():
+        return 'C13 filter_by_spike_sync modified the trains passed to it'
     if any(any(tS - eps < x < tS or tE < x < tE + eps for x in s) for s, _, _ in sc['raw']):
         # spikes inside the tolerance band but outside the interval are kept by design; the measures
         # are then not defined on them (the trains are not valid) — only the reconcile clauses apply
@@ -515,6 +526,8 @@ def o_C13(sc):
         if 'max_tau' in extra:
             k.update(mt)
         a = quiet(f, raw, **k) if 'list' in extra else quiet(f, raw[0], raw[1], **k)
+        if not unchanged():
+            return 'C13 %s modified the spike times or edges of the trains passed to it' % name
         b = quiet(f, R, **k) if 'list' in extra else quiet(f, R[0], R[1], **k)
         k2 = dict(k); k2['Reconcile'] = False
         c = quiet(f, R, **k2) if 'list' in extra else quiet(f, R[0], R[1], **k2)
@@ -880,3 +893,256 @@ def o_C20(sc):
 ORACLES = {'C01': o_C01, 'C02': o_C02, 'C03': o_C03, 'C04': o_C04, 'C05': o_C05, 'C06': o_C06, 'C07': o_C07,
            'C08': o_C08, 'C13': o_C13, 'C14': o_C14, 'C15': o_C15, 'C16': o_C16, 'C17': o_C17, 'C18': o_C18,
            'C19': o_C19, 'C20': o_C20}
+
+
+# ------------------------------------------------------------------ function classes (C09, C10, C11)
+
+def _F(v):
+    return [Fr(x) for x in v]
+
+
+def pwc_eval_exact(x, y, t, side):
+    """one-sided limit of a piecewise constant function given by exact arrays"""
+    for k in range(len(y)):
+        if (side > 0 and x[k] <= t < x[k + 1]) or (side < 0 and x[k] < t <= x[k + 1]):
+            return y[k]
+    return y[-1] if side > 0 else y[0]
+
+
+def pwl_eval_exact(x, y1, y2, t, side):
+    for k in range(len(y1)):
+        if (side > 0 and x[k] <= t < x[k + 1]) or (side < 0 and x[k] < t <= x[k + 1]):
+            return y1[k] + (y2[k] - y1[k]) * (t - x[k]) / (x[k + 1] - x[k])
+    return y2[-1] if side > 0 else y1[0]
+
+
+def integral_exact(kind, f, a, b):
+    x = f[0]
+    tot = Fr(0)
+    for k in range(len(x) - 1):
+        lo, hi = max(a, x[k]), min(b, x[k + 1])
+        if lo < hi:
+            if kind == 'pwc':
+                tot += (hi - lo) * f[1][k]
+            else:
+                va = pwl_eval_exact(f[0], f[1], f[2], lo, +1)
+                vb = pwl_eval_exact(f[0], f[1], f[2], hi, -1)
+                tot += (hi - lo) * (va + vb) / 2
+    return tot
+
+
+def mk_func(kind, f):
+    if kind == 'pwc':
+        return PieceWiseConstFunc(np.array([float(v) for v in f[0]]), np.array([float(v) for v in f[1]]))
+    if kind == 'pwl':
+        return PieceWiseLinFunc(np.array([float(v) for v in f[0]]), np.array([float(v) for v in f[1]]), np.array([float(v) for v in f[2]]))
+    return DiscreteFunc(np.array([float(v) for v in f[0]]), np.array([float(v) for v in f[1]]), np.array([float(v) for v in f[2]]))
+
+
+def func_state(g):
+    if isinstance(g, PieceWiseConstFunc):
+        return (list(g.x), list(g.y))
+    if isinstance(g, PieceWiseLinFunc):
+        return (list(g.x), list(g.y1), list(g.y2))
+    return (list(g.x), list(g.y), list(g.mp))
+
+
+def o_C09(sc):
+    """sc: {'kind': 'pwc'|'pwl', 'funcs': [arrays…], 'ops': [('add', i, j) | ('mul', i, c) | ('copy', i)]}
+    Every object is tracked as a formal linear combination of the initial functions; after every
+    operation *all* live objects are compared with their expected denotation (aliasing shows up
+    as an object changing that was not the receiver)."""
+    kind = sc['kind']
+    init = [tuple(_F(a) for a in f) for f in sc['funcs']]
+    objs = [mk_func(kind, f) for f in init]
+    combo = [{k: Fr(1)} for k in range(len(init))]
+    ev = (lambda f, t, s: pwc_eval_exact(f[0], f[1], t, s)) if kind == 'pwc' else (lambda f, t, s: pwl_eval_exact(f[0], f[1], f[2], t, s))
+
+    def expected_breaks(c):
+        pts = set()
+        for k, w in c.items():
+            pts |= set(init[k][0])
+        return sorted(pts)
+
+    def check_all(step):
+        for n, (g, c) in enumerate(zip(objs, combo)):
+            xs = expected_breaks(c)
+            if not aeq(g.x, [float(v) for v in xs], 0):
+                return 'C09 after %s: object %d has breakpoints %s, expected the union %s' % (step, n, list(g.x), [float(v) for v in xs])
+            for k in range(len(xs) - 1):
+                a, b = xs[k], xs[k + 1]
+                er = sum(w * ev(init[i], a, +1) for i, w in c.items())
+                el = sum(w * ev(init[i], b, -1) for i, w in c.items())
+                gr = g.y[k] if kind == 'pwc' else g.y1[k]
+                gl = g.y[k] if kind == 'pwc' else g.y2[k]
+                if not feq(gr, er) or not feq(gl, el):
+                    return 'C09 after %s: object %d on piece [%s,%s] has limits (%r,%r), expected (%s,%s)' % (step, n, a, b, gr, gl, float(er), float(el))
+                mid = (a + b) / 2
+                em = sum(w * ev(init[i], mid, +1) for i, w in c.items())
+                if not feq(quiet(g, float(mid)), em):
+                    return 'C09 after %s: object %d at t=%s is %r, expected %s' % (step, n, mid, quiet(g, float(mid)), float(em))
+            ei = sum(w * integral_exact(kind, init[i], init[i][0][0], init[i][0][-1]) for i, w in c.items())
+            if not feq(quiet(g.integral), ei):
+                return 'C09 after %s: object %d has integral %r, expected %s' % (step, n, quiet(g.integral), float(ei))
+        return None
+    r = check_all('construction')
+    if r:
+        return r
+    for op in sc['ops']:
+        if op[0] == 'add':
+            _, i, j = op
+            quiet(objs[int(i)].add, objs[int(j)])
+            if int(i) != int(j):
+                for k, w in combo[int(j)].items():
+                    combo[int(i)][k] = combo[int(i)].get(k, Fr(0)) + w
+            else:
+                combo[int(i)] = {k: 2 * w for k, w in combo[int(i)].items()}
+        elif op[0] == 'mul':
+            _, i, c = op
+            quiet(objs[int(i)].mul_scalar, float(c))
+            combo[int(i)] = {k: w * Fr(c) for k, w in combo[int(i)].items()}
+        else:
+            _, i = op
+            objs.append(quiet(objs[int(i)].copy))
+            combo.append(dict(combo[int(i)]))
+        r = check_all('%s' % (op,))
+        if r:
+            return r
+    return None
+
+
+def o_C10(sc):
+    """sc: {'kind', 'func': arrays, 'intervals': [(a,b)…], 'times': […]}"""
+    kind = sc['kind']
+    f = tuple(_F(a) for a in sc['func'])
+    g = mk_func(kind, f)
+    x = f[0]
+    full = integral_exact(kind, f, x[0], x[-1])
+    if not feq(quiet(g.integral), full):
+        return 'C10 integral() = %r, exact %s' % (quiet(g.integral), float(full))
+    if not feq(quiet(g.integral, (float(x[0]), float(x[-1]))), full):
+        return 'C10 integral over the full support differs from integral()'
+    if not feq(quiet(g.avrg), full / (x[-1] - x[0])):
+        return 'C10 avrg() is not integral/length'
+    tot, ln = Fr(0), Fr(0)
+    for a, b in sc.get('intervals', []):
+        a, b = Fr(a), Fr(b)
+        e = integral_exact(kind, f, a, b)
+        v = quiet(g.integral, (float(a), float(b)))
+        if not feq(v, e):
+            return 'C10 integral over [%s,%s] = %r, exact %s' % (a, b, v, float(e))
+        if not feq(quiet(g.avrg, (float(a), float(b))), e / (b - a)):
+            return 'C10 avrg over [%s,%s] is not integral/length' % (a, b)
+        for c in sc.get('times', []):
+            c = Fr(c)
+            if a < c < b:
+                v2 = quiet(g.integral, (float(a), float(c))) + quiet(g.integral, (float(c), float(b)))
+                if not feq(v2, e):
+                    return 'C10 integrals over [%s,%s] and [%s,%s] do not add up to [%s,%s]' % (a, c, c, b, a, b)
+        tot += e; ln += b - a
+    ivl = [(float(a), float(b)) for a, b in sc.get('intervals', [])]
+    if len(ivl) >= 2:
+        if not feq(quiet(g.avrg, ivl), tot / ln):
+            return 'C10 avrg over a list of intervals is not summed integrals / summed lengths'
+    ev = (lambda t, s: pwc_eval_exact(f[0], f[1], t, s)) if kind == 'pwc' else (lambda t, s: pwl_eval_exact(f[0], f[1], f[2], t, s))
+    ts_ = [Fr(t) for t in sc.get('times', [])]
+    exp = []
+    for t in ts_:
+        if t == x[0]:
+            exp.append(ev(t, +1))
+        elif t == x[-1]:
+            exp.append(ev(t, -1))
+        elif t in x:
+            exp.append((ev(t, +1) + ev(t, -1)) / 2)
+        else:
+            exp.append(ev(t, +1))
+    for t, e in zip(ts_, exp):
+        if not feq(quiet(g, float(t)), e):
+            return 'C10 value at t=%s is %r, expected %s' % (t, quiet(g, float(t)), float(e))
+    if ts_:
+        seq = quiet(g, [float(t) for t in ts_])
+        if not aeq(seq, [float(e) for e in exp]):
+            return 'C10 evaluation of a list of times %s differs from the single-time values %s' % (list(seq), [float(e) for e in exp])
+    px, py = quiet(g.get_plottable_data)
+    ex, ey = [], []
+    for k in range(len(x) - 1):
+        ex += [x[k], x[k + 1]]
+        ey += [ev(x[k], +1), ev(x[k + 1], -1)]
+    if not aeq(px, [float(v) for v in ex], 0) or not aeq(py, [float(v) for v in ey]):
+        return 'C10 plottable arrays do not trace the pieces'
+    return None
+
+
+def o_C11(sc):
+    """sc: {'funcs': [(x,y,mp)…] discrete profiles on a common interval, 'intervals', 'k'}"""
+    init = [tuple(_F(a) for a in f) for f in sc['funcs']]
+    objs = [mk_func('disc', f) for f in init]
+    acc = quiet(objs[0].copy)
+    for g in objs[1:]:
+        snap = func_state(g)
+        quiet(acc.add, g)
+        if func_state(g) != snap:
+            return 'C11 the added operand was modified'
+    ev = {}
+    for f in init:
+        for x, y, mp in list(zip(*f))[1:-1]:
+            e = ev.setdefault(x, [Fr(0), Fr(0)]); e[0] += y; e[1] += mp
+    times = sorted(ev)
+    got = list(zip(acc.x, acc.y, acc.mp))
+    if [g[0] for g in got[1:-1]] != [float(t) for t in times] or got[0][0] != float(init[0][0][0]) or got[-1][0] != float(init[0][0][-1]):
+        return 'C11 event times of the sum %s, expected edges + %s' % ([g[0] for g in got], [float(t) for t in times])
+    for (x, y, mp), t in zip(got[1:-1], times):
+        if not feq(y, ev[t][0]) or not feq(mp, ev[t][1]):
+            return 'C11 entry at %s is (%r,%r), expected (%s,%s)' % (t, y, mp, ev[t][0], ev[t][1])
+    v, m = quiet(acc.integral)
+    if not feq(v, sum(e[0] for e in ev.values())) or not feq(m, sum(e[1] for e in ev.values())):
+        return 'C11 integral() is not the sum over all events'
+    tv, tm = Fr(0), Fr(0)
+    for a, b in sc.get('intervals', []):
+        a, b = Fr(a), Fr(b)
+        ins = [t for t in times if a < t < b]
+        e_v = sum(ev[t][0] for t in ins); e_m = sum(ev[t][1] for t in ins)
+        v, m = quiet(acc.integral, (float(a), float(b)))
+        if not feq(v, e_v) or not feq(m, e_m):
+            return 'C11 integral over (%s,%s) = (%r,%r), events strictly inside give (%s,%s)' % (a, b, v, m, e_v, e_m)
+        av = quiet(acc.avrg, (float(a), float(b)))
+        if not feq(av, (e_v / e_m) if e_m > 0 else 1):
+            return 'C11 avrg over (%s,%s) = %r' % (a, b, av)
+        tv += e_v; tm += e_m
+    ivl = [(float(a), float(b)) for a, b in sc.get('intervals', [])]
+    if len(ivl) >= 2:
+        v, m = quiet(acc.integral, ivl)
+        if not feq(v, tv) or not feq(m, tm):
+            return 'C11 integral over a list of intervals does not add up'
+    px, py = quiet(acc.get_plottable_data)
+    if not aeq(py[1:-1], [float(ev[t][0] / ev[t][1]) for t in times]):
+        return 'C11 plottable data are not value/multiplicity'
+    k = int(sc.get('k', 0))
+    if k > 0 and all(e[1].denominator == 1 for e in ev.values()) and len(got) > 2:
+        # unit expansion: each entry contributes mp unit items of value y/mp
+        ents = [(Fr(y), Fr(mp)) for _, y, mp in got]
+        if all(mp.denominator == 1 and mp > 0 for _, mp in ents):
+            E = (k + 1) * int(ents[0][1])
+            px, py = quiet(acc.get_plottable_data, k)
+            for i, (y, mp) in enumerate(ents):
+                if mp >= E:
+                    e = y / mp
+                else:
+                    need = E - mp
+                    def side(seq):
+                        tot, cnt = Fr(0), Fr(0)
+                        for yy, mm in seq:
+                            take = min(mm, need - cnt)
+                            tot += yy / mm * take; cnt += take
+                            if cnt >= need:
+                                break
+                        return tot, cnt
+                    r, rc = side(ents[i + 1:])
+                    l, lc = side(ents[:i][::-1])
+                    e = (y + r + l) / (mp + rc + lc)
+                if not feq(py[i], e):
+                    return 'C11 smoothed value %d with window %d is %r, unit-expansion mean %s' % (i, k, py[i], float(e))
+    return None
+
+
+ORACLES.update({'C09': o_C09, 'C10': o_C10, 'C11': o_C11})
